@@ -2,6 +2,7 @@
 package main
 
 import (
+	"encoding/json"
 	"flag"
 	"fmt"
 	"os"
@@ -9,6 +10,7 @@ import (
 	"runtime/debug"
 	"sort"
 	"strconv"
+	"strings"
 	"time"
 
 	"ndndcheck/core"
@@ -47,7 +49,33 @@ func main() {
 	canaryTotal := flag.Int("canary-total", -1, "thorough tier: number of canary variants run by the wrapper")
 	canaryFired := flag.Int("canary-fired", 0, "thorough tier: number of canaries on which the expected rule fired")
 	canaryFailed := flag.String("canary-failed", "", "thorough tier: canaries that did not fire (rule has gone blind)")
+	dumpAnchors := flag.String("dump-anchors", "", "run every property and write the fingerprints of all functions looked up by name to this file (maintenance: regenerates anchors.json)")
 	flag.Parse()
+	if *dumpAnchors != "" {
+		p, err := core.Load(*repo, nil)
+		if err != nil {
+			fmt.Fprintln(os.Stderr, err)
+			os.Exit(2)
+		}
+		p.Lookups = map[string]bool{}
+		for _, run := range table {
+			func() {
+				defer func() { recover() }()
+				run(core.NewCtx(p, "x", "quick"))
+			}()
+		}
+		out := map[string]core.AnchorPrint{}
+		for k := range p.Lookups {
+			parts := strings.SplitN(k, "|", 3)
+			if f := p.Func(parts[0], parts[1], parts[2]); f != nil && f.Blocks != nil && (f.Object() == nil || !f.Object().Exported()) {
+				out[k] = core.Fingerprint(f)
+			}
+		}
+		b, _ := json.MarshalIndent(out, "", " ")
+		os.WriteFile(*dumpAnchors, append(b, '\n'), 0o644)
+		fmt.Printf("%d unexported anchors fingerprinted\n", len(out))
+		return
+	}
 	if *list {
 		var ids []string
 		for k := range table {
@@ -91,12 +119,25 @@ func main() {
 	if len(p.All) < 40 {
 		fail(fmt.Sprintf("only %d packages loaded", len(p.All)))
 	}
+	if b, err := os.ReadFile(filepath.Join(*verif, "anchors.json")); err == nil {
+		if err := json.Unmarshal(b, &p.Anchors); err != nil {
+			fail("anchors.json unreadable: " + err.Error())
+		}
+	}
 	known, err := core.LoadKnown(filepath.Join(*verif, "known_findings.json"))
 	if err != nil {
 		fail("known_findings.json unreadable: " + err.Error())
 	}
 	ctx := core.NewCtx(p, *prop, *tier)
 	run(ctx)
+	if len(p.Relocated) > 0 {
+		var rs []string
+		for k, v := range p.Relocated {
+			rs = append(rs, strings.ReplaceAll(k, "|", ".")+" => "+v)
+		}
+		sort.Strings(rs)
+		ctx.Extra["anchors_found_under_a_new_name"] = rs
+	}
 	if *tier == "thorough" {
 		// the same rules under every build configuration that changes the file set
 		configs := []string{"linux/amd64"}
